@@ -2,7 +2,7 @@
 from __future__ import annotations
 
 from sa.report import Cx
-from sa.terms import Sym, Attr, f_and, f_or, implies, atoms_of
+from sa.terms import Sym, Attr, Fresh, f_and, f_or, implies, atoms_of
 from .common import CORE, scheduler_paths, exec_sites, classify_iterable, queue_term, strip_versions
 from .c02 import registered_atom_kind, guard_of_sites
 
@@ -37,7 +37,7 @@ def run(cx: Cx):
         for s in exec_sites(cx, p):
             if s.loop_ev is None:
                 continue
-            loops.setdefault(s.loop_id, s)
+            loops.setdefault((s.loop_id, repr(strip_versions(s.loop_ev.data.get('iter')))), s)
             by_node.setdefault(id(s.ev.node), []).append(s)
             # snapshot not mutated inside the iteration
             it = s.loop_ev.data.get('iter')
@@ -66,6 +66,10 @@ def run(cx: Cx):
             cx.violation('R-ITER', fn.qualname, 'iterates-live-queue',
                          "execute_systems walks the live queue by index while System.execute() may add or remove systems",
                          where=where, iterable=repr(it))
+        elif kind == 'stored':
+            cx.violation('R-ITER', fn.qualname, 'snapshot-taken-in-this-timestep',
+                         f"execute_systems iterates {it!r}, a snapshot kept in a field across calls: systems registered or removed "
+                         f"since it was taken are not honoured in this timestep", where=where)
         elif kind in ('reversed', 'sorted', 'set'):
             cx.violation('R-ITER', fn.qualname, f"snapshot-order-{kind}",
                          f"execute_systems iterates {it!r}: not a same-order copy of the queue", where=where)
@@ -73,8 +77,50 @@ def run(cx: Cx):
             cx.inconclusive('R-ITER', 'scheduler iterable', f"{it!r} is not recognisably the queue or a same-order copy",
                             where=where, function=fn.qualname)
 
+    # the snapshot must be taken in the timestep it is used in: a loop that runs after the clock was advanced (a later step
+    # of a multi-step request) must iterate a copy allocated after that clock write
+    TLOC = (CORE + 'SystemManager', 'timestep')
+    stale = None
+    for root in (None, CORE + 'Model.execute'):
+        try:
+            rfn, rps = scheduler_paths(cx, unroll=2, root=root)
+        except Exception:
+            continue
+        for p in rps:
+            evs = p.events
+            clocks = [i for i, e in enumerate(evs) if e.kind == 'store' and e.data.get('loc') == TLOC]
+            for s in exec_sites(cx, p):
+                if s.loop_ev is None:
+                    continue
+                li = evs.index(s.loop_ev)
+                prev_clock = max([c for c in clocks if c < li], default=None)
+                if prev_clock is None:
+                    continue
+                it = s.loop_ev.data.get('iter')
+                if classify_iterable(it, queue_term(fn.params[0])) != 'copy' and not isinstance(it, Fresh):
+                    continue
+                alloc = [i for i, e in enumerate(evs[:li]) if e.kind == 'call' and e.data.get('result') is not None and e.data.get('result') == it]
+                if alloc and alloc[-1] < prev_clock:
+                    stale = (p, s, rfn)
+                    break
+            if stale:
+                break
+        if stale:
+            break
+    if stale:
+        p, s, rfn = stale
+        cx.violation('R-ITER', fn.qualname, 'snapshot-taken-in-this-timestep',
+                     "a later timestep of a multi-step request walks a snapshot of the queue that was taken before the clock was last "
+                     "advanced: a system registered during an earlier step of the same request never runs in the following steps "
+                     "although it stays registered for whole timesteps", where=cx.where(rfn, s.loop_ev.line), path=p.lines())
+    else:
+        cx.ok('R-ITER', 'every timestep of a multi-step request takes its own snapshot', where=cx.where(fn), function=fn.qualname)
+
+    def _pre_clock(site):
+        i = site.path.events.index(site.ev)
+        return not any(e.kind == 'store' and e.data.get('loc') == TLOC for e in site.path.events[:i])
     for nid, sites in by_node.items():
-        first = [s for s in sites if s.iter_ev is not None and s.iter_ev.data.get('k') == 1]
+        first = [s for s in sites if s.iter_ev is not None and s.iter_ev.data.get('k') == 1 and _pre_clock(s)]
         if not first:
             continue
         s0 = first[0]
@@ -109,3 +155,6 @@ def run(cx: Cx):
                              path=p.lines())
                 return
     cx.ok('R-GUARD', 'at most one execute per iteration', where=cx.where(fn), function=fn.qualname)
+    # 'no system runs more than once' also needs the queue to hold each registered system once: removal must really remove
+    from .c01 import check_remove_pairing
+    check_remove_pairing(cx)
